@@ -4,6 +4,8 @@ import (
 	"context"
 	"fmt"
 	"go/types"
+	"strings"
+	"unicode"
 
 	"github.com/rs/zerolog"
 	"github.com/vektra/mockery/v3/config"
@@ -191,6 +193,13 @@ func (m *MethodScope) AddVar(ctx context.Context, vr *types.Var, prefix string, 
 			pkgPath: m.pkgPath,
 		}
 		m.AddName(v.TypeString())
+		// Every identifier inside a composite type (the "error" in "[]error", the
+		// "string" in "map[string]int") must stay reachable too.
+		for _, ident := range strings.FieldsFunc(v.TypeString(), func(r rune) bool {
+			return r != '_' && !unicode.IsLetter(r) && !unicode.IsDigit(r)
+		}) {
+			m.AddName(ident)
+		}
 	}
 	v.Name = m.SuggestName(varName(vr, prefix))
 	m.vars = append(m.vars, &v)
